@@ -34,8 +34,19 @@ def owns(rule, flags):
 
 
 def make_case(rng, i):
-    return F.basic_case(rng, PROFILE, hist=(5, 40), drivers=("sync", "inloop"), p_unknown=0.1,
+    case = F.basic_case(rng, PROFILE, hist=(5, 40), drivers=("sync", "inloop"), p_unknown=0.1,
                         async_modes=("none", "none", "none", "all", "half", "one"), p_style=0.3)
+    spec = case["scenario"].spec
+    if not spec.get("style"):
+        for g in spec["guards"].values():
+            if g["providers"] == ["sm"] and g["kind"] == "method" and not g.get("async") and rng.random() < 0.15:
+                # the guard is a function object (module level or class body) instead of a name; another
+                # provider has an unrelated method of the same name that must never be consulted
+                g["by_obj"] = rng.choice(["module", "module", "class"])
+                others = [p for p in spec["providers"] if p != "sm"]
+                if others and rng.random() < 0.7:
+                    g["decoy"] = rng.choice(others)
+    return case
 
 
 def signature(case, ck, log, fault):
